@@ -126,6 +126,66 @@ def py_token(o):
     raise TypeError(type(o))
 
 
+def py_token_ids(o, ids):
+    """The same with identities: a str / bytes / bytearray leaf is written c( C<"id">.<number> leaf ), the number standing for id(o)."""
+    def leaf(t):
+        k = ids.setdefault(id(o), len(ids))
+        return "c( C" + b"id".hex() + "." + str(k).encode().hex() + " " + t + " )"
+    if isinstance(o, str):
+        return leaf("S" + o.encode("utf-8", "surrogatepass").hex())
+    if isinstance(o, bytes):
+        return leaf("B" + o.hex())
+    if isinstance(o, bytearray):
+        return leaf("A" + bytes(o).hex())
+    if isinstance(o, list):
+        return "l( " + "".join(py_token_ids(x, ids) + " " for x in o) + ")"
+    if isinstance(o, tuple):
+        return "t( " + "".join(py_token_ids(x, ids) + " " for x in o) + ")"
+    if isinstance(o, dict):
+        return "d( " + "".join(py_token_ids(k, ids) + " " + py_token_ids(v, ids) + " " for k, v in o.items()) + ")"
+    return py_token(o)
+
+
+RESERVED_TEXT = {"latin1", "builtins", "bytearray", "__builtin__", "bytes", "_codecs", "encode"}
+
+
+def containers_are_tree(o, seen):
+    """No container occurs twice (strings and bytes may), and no text that CPython itself holds as one of the interned
+    constants the pickler writes (so that identities in the model are the identities in CPython)."""
+    if isinstance(o, (list, dict)) or (isinstance(o, tuple) and o):
+        if id(o) in seen:
+            return False
+        seen.add(id(o))
+    if isinstance(o, str) and o in RESERVED_TEXT:
+        return False
+    if isinstance(o, (list, tuple)):
+        return all(containers_are_tree(x, seen) for x in o)
+    if isinstance(o, dict):
+        return all(containers_are_tree(k, seen) and containers_are_tree(v, seen) for k, v in o.items())
+    return True
+
+
+def outside_pickler_model_shared(o, p):
+    if isinstance(o, (bytes, bytearray)):
+        return False
+    if isinstance(o, (list, tuple)):
+        return any(outside_pickler_model_shared(x, p) for x in o)
+    if isinstance(o, dict):
+        return any(outside_pickler_model_shared(k, p) or outside_pickler_model_shared(v, p) for k, v in o.items())
+    return outside_pickler_model(o, p)
+
+
+def shared_objects(rng, n):
+    objs = pyside.rand_objects(rng, n, share=0.3)
+    k, d = "key" + str(rng.randint(0, 9)), b"payload\xff"
+    objs += [[{"a": 1, "b": 2}, {"a": 3, "b": 4}], [b"ab", b"c\xe9", b""], [bytearray(b"ab"), bytearray(b"cd"), bytearray()],
+             [bytearray(b"ab"), b"xy", bytearray(b"")], [k, k, (k, k), {k: k}], ["a", "a", "bb"], ["", "", b"", b""],
+             [{k: d, "n": i} for i in range(300)], [b"x" * 300, b"x" * 300], [bytearray(b"q" * 70000)], [b"\xff" * 256],
+             ["x" * 300] * 3 + [b"y" * 3] * 3, {i: k for i in range(1001)}, [d] * 1001, (d, (d, [d, {d: d}])),
+             [bytes([i]) for i in range(256)], [bytearray([i, 255 - i]) for i in range(40)], b"", bytearray(), [b"", bytearray()]]
+    return objs
+
+
 def is_tree(o, seen):
     """No object the pickler memoizes occurs twice (the precondition of the pickler model: it never writes a GET)."""
     if isinstance(o, (str, bytes, bytearray, list, dict)) or (isinstance(o, tuple) and o):
@@ -187,25 +247,27 @@ def tree_objects(rng, n):
     return objs
 
 
-def pickler_tie(ctx, objs):
+def pickler_tie(ctx, objs, shared=False):
     """Ogorek/CPickle.lean (the model of CPython's pickler that theorem C02_pickler is about) against the real `pickle.dumps`,
     byte for byte, on tree-shaped objects at every protocol; and, where the theorem's decidable hypothesis holds, its claim on the
     implementation: Decode of these bytes succeeds, consumes them all and returns the documented value."""
     import pickle
     import pickletools
     lines, meta = [], []
+    cmd = "cpks" if shared else "cpk"
+    tag = "pickler-model(memo read)" if shared else "pickler-model"
     for o in objs:
-        if not is_tree(o, set()):
-            ctx.count("pickler-model:object-with-sharing(skipped)")
+        if not (containers_are_tree(o, set()) if shared else is_tree(o, set())):
+            ctx.count(tag + ":object-with-shared-containers(skipped)" if shared else tag + ":object-with-sharing(skipped)")
             continue
-        t = py_token(o)
+        t = py_token_ids(o, {}) if shared else py_token(o)
         for p in range(6):
             real = pickle.dumps(o, p)
-            lines.append(f"cpk 0 {p} {t}")
+            lines.append(f"{cmd} 0 {p} {t}")
             meta.append((o, p, strip_frames(real), real))
             nfr = sum(1 for op, _, _ in pickletools.genops(real) if op.name == "FRAME")
             if p >= 4 and nfr <= 1 and len(real) < 60000:
-                lines.append(f"cpk 1 {p} {t}")
+                lines.append(f"{cmd} 1 {p} {t}")
                 meta.append((o, p, real, real))
     ans = C.run_sharded(C.run_lean, lines)
     dec_lines, dec_meta = [], []
@@ -213,8 +275,8 @@ def pickler_tie(ctx, objs):
         ctx.evaluations += 1
         ctx.traces += 1
         if a == "UNMODELLED":
-            if outside_pickler_model(o, p):
-                ctx.count("pickler-model:declared-unmodelled")
+            if (outside_pickler_model_shared if shared else outside_pickler_model)(o, p):
+                ctx.count(tag + ":declared-unmodelled")
                 ctx.unmodelled += 1
             else:
                 ctx.disagree(line[:3000], "pickle.dumps: " + hexs(want[:400]), a, "pickler model")
@@ -227,8 +289,8 @@ def pickler_tie(ctx, objs):
             ctx.disagree(line[:3000], "pickle.dumps: " + hexs(want[:1000]), "model: " + hx[:2000], "pickler model")
             continue
         ctx.exact_agree += 1
-        ctx.count(f"pickler-model:same-bytes:proto{p}")
-        if line.startswith("cpk 1"):
+        ctx.count(f"{tag}:same-bytes:proto{p}")
+        if line.split(" ")[1] == "1":
             continue
         for pd in (False, True):
             covered = flags[int(pd)] == "1" and (p >= 1 or not _has_float(o))
@@ -240,11 +302,12 @@ def pickler_tie(ctx, objs):
         ctx.evaluations += 1
         ctx.tie(line[:4000], g, l)
         ctx.nontrivial((line[4:6], real))
+        thm = "pickler-theorem(memo read)" if shared else "pickler-theorem"
         if not covered:
-            ctx.count("pickler-theorem:outside-hypotheses(" + ("protocol-0 float text" if p == 0 and _has_float(o) else
+            ctx.count(thm + ":outside-hypotheses(" + ("protocol-0 float text" if p == 0 and _has_float(o) else
                                                                 "tuple / big-int key in map mode" if not pd else "keys") + ")")
             continue
-        ctx.count("pickler-theorem:covered")
+        ctx.count(thm + ":covered")
         want = pyside.render_expected(pyside.table(o, pd))
         if not g.startswith("OK "):
             ctx.violate("Decode failed on a CPython pickle that theorem C02_pickler covers", line[:3000], "OK " + want[:300], g[:300])
@@ -274,7 +337,9 @@ def _has_float(o):
 class C02:
     prop = "C02"
     lean_module = "Ogorek.Props.C02Pk"
-    theorems = ["Ogorek.C02_pickler", "Ogorek.C02_pickler_framed", "Ogorek.C02_pickler_bin", "Ogorek.pk_val", "Ogorek.runs_listGroups",
+    theorems = ["Ogorek.C02_pickler", "Ogorek.C02_pickler_framed", "Ogorek.C02_pickler_bin", "Ogorek.C02_pickler_shared",
+                "Ogorek.C02_pickler_shared_unframed", "Ogorek.pk_val", "Ogorek.sk_val", "Ogorek.MemoInv.put", "Ogorek.runs_get",
+                "Ogorek.saveBytesS_ok", "Ogorek.saveBytearrayS_ok", "Ogorek.runs_listGroups",
                 "Ogorek.runs_dictGroups", "Ogorek.batchList_groups", "Ogorek.batchDict_groups", "Ogorek.assignAll_batch",
                 "Ogorek.cpRue_inv", "Ogorek.cpRue_no_lf", "Ogorek.long1Width_fits", "Ogorek.pkOK_of_b",
                 "Ogorek.C02_memo_keys", "Ogorek.C02_K1_witness", "Ogorek.C19_LONG1", "Ogorek.C19_counted", "Ogorek.C02_bytes_forms"]
@@ -300,6 +365,16 @@ class C02:
                   "table and pairwise different for it (keysOK as in C03: with builtin maps no tuple / *big.Int key), bytearrays < 4 "
                   "GiB; at protocol 0 only, ParseFloat reads Python's repr of each float back (PyFloatTextOK, not proved); from "
                   "protocol 1 on the hypotheses are decidable (pkOKb, C02_pickler_bin) and evaluated for every compared case. "
+                  "C02_pickler_shared (sk_val): the same for objects in which str, bytes and bytearray objects occur any number of "
+                  "times - the pickler writes them once and fetches them with BINGET / LONG_BINGET / GET - and with bytes at "
+                  "protocols 0-2 and bytearray at protocols 0-4, written as _codecs.encode(text, 'latin1') / bytes() / "
+                  "bytearray(bytes) through globals (GLOBAL, or two strings and STACK_GLOBAL from protocol 4 on) and the string "
+                  "'latin1', all memoized at first use and fetched later (model cpDumpsS, identities being part of the object); on a "
+                  "Decoder with an empty memo (MEMOIZE numbers by the size of the memo: finding K7) Decode returns the documented "
+                  "value. Every statement of the induction carries the memo invariant MemoInv - the decoder's memo holds exactly the "
+                  "keys \"0\"..\"n-1\" and under each index the pickler may fetch again the value standing for what was memoized "
+                  "there (MemoInv.put, runs_get) - and REDUCE of the interpreted calls is evaluated (saveBytesS_ok, "
+                  "saveBytearrayS_ok). "
                   "Per-form lemmas as before: one memo key space for all PUT / GET widths and MEMOIZE (C02_memo_keys), every LONG1 "
                   "width and counted payload (C19_LONG1, C19_counted), the bytes()/bytearray() and _codecs.encode / "
                   "bytearray(bytes) forms CPython emits below protocol 3/5 (C02_bytes_forms). PARTIAL: objects in which a memoized "
@@ -382,6 +457,7 @@ class C02:
                 ctx.violate("decoded value differs from the documented table for the pickled object", line[:3000], want[:1200], got[:1200],
                             known="K1" if k1 else None)
         pickler_tie(ctx, tree_objects(rng, ctx.scale(150, 3000)))
+        pickler_tie(ctx, shared_objects(rng, ctx.scale(150, 3000)), shared=True)
         for i in range(0, len(lines), max(1, len(lines) // 8)):
             ctx.sample(lines[i][:200] + " -> " + go[i][:200])
 
